@@ -1,5 +1,43 @@
 """cnvlib/access.py + the contig-name rule of cnvlib/antitarget.py -> Gen/AccessDefaults.v"""
 import ast
+import copy
+
+
+def skeleton(T, rel, qual):
+    """The normalised source (ast.unparse) of function `qual`, one string per line, with what the
+    model does not speak about removed: the docstring, logging calls, assertion messages.  The
+    branch structure, every condition, every yield and every assignment stay; Props/C13.v states
+    the lines the model was written for, so that a changed branch breaks a proof obligation."""
+    f = copy.deepcopy(T.find_func(rel, qual))
+
+    class Strip(ast.NodeTransformer):
+        def visit_Expr(self, node):
+            v = node.value
+            if isinstance(v, ast.Constant) and isinstance(v.value, str):
+                return None
+            if isinstance(v, ast.Call) and ast.unparse(v.func).startswith('logging.'):
+                return None
+            return self.generic_visit(node)
+
+        def visit_Assert(self, node):
+            node.msg = None
+            return node
+
+        def visit_ImportFrom(self, node):
+            return None
+
+    f = Strip().visit(f)
+    for n in ast.walk(f):
+        for field in ('body', 'orelse'):
+            b = getattr(n, field, None)
+            if field == 'body' and isinstance(b, list) and not b:
+                setattr(n, field, [ast.Pass()])
+    ast.fix_missing_locations(f)
+    lines = ast.unparse(f).split('\n')
+    for l in lines:
+        if len(l) > 200:
+            raise T.Refuse('%s:%s: a source line longer than 200 characters' % (rel, qual))
+    return lines
 
 
 def specs(T):
@@ -22,4 +60,11 @@ def specs(T):
         ('re_noncanonical_alts', 'list string', alts),
         ('min_gap_size_default', 'Z', T.default(A, 'do_access', 'min_gap_size')),
         ('skip_noncanonical_default', 'bool', T.default(A, 'do_access', 'skip_noncanonical')),
+        # branch structure of the three functions the models mirror (Model/Access.v scan_line /
+        # join_from, Model/AccessText.v gr_step, Model/AccessPipe.v do_access)
+        ('get_regions_src', 'list string', skeleton(T, A, 'get_regions')),
+        ('log_this_src', 'list string', skeleton(T, A, 'log_this')),
+        ('join_regions_src', 'list string', skeleton(T, A, 'join_regions')),
+        ('do_access_src', 'list string', skeleton(T, A, 'do_access')),
+        ('drop_noncanonical_src', 'list string', skeleton(T, A, 'drop_noncanonical_contigs')),
     ]}
